@@ -7,8 +7,8 @@ CHECKS = {
  "C01": dict(level="exploration", technique="runtime monitoring: differential result oracle (NumPy shadow interpreter) over generated recipes on the real executors",
    text="Every generated expression is computed by the real cubed code on real executors and its result compared element-wise with an independent NumPy evaluation; held = no disagreement on the executions listed in the evidence. The generator also draws one array for both operands of matmul/tensordot/vecdot/outer, stack inputs with equal block counts but different chunk sizes, negative axes and zero counts. Exploration is the right level: the input space is unbounded, so reach comes from generator diversity (shapes, chunkings, dtypes, compositions, executors), not enumeration.",
    note="Trusts NumPy as reference and the harness's own recipe interpreters; geometries beyond the generator's bounds and executors not installed (dask, lithops, ...) are not observed.", ref="3/C01"),
- "C02": dict(level="exploration", technique="runtime monitoring: differential oracle (same recipe computed unoptimised vs under each optimiser setting, bit-exact) + read-back of requested arrays from storage",
-   text="Each generated DAG is executed by the real code unoptimised and under default/multiple-input/legacy/fuse-all/fuse-only optimisers with random always/never-fuse subsets; requested arrays must be bit-identical and present in storage. A third of the recipes also save a requested array with a lazy store/to_zarr into a path or an existing array of equal/finer/coarser/unrelated chunking and request a consumer of the stored array; the target is read back with plain zarr. Held = no difference on the (recipe, optimiser) pairs listed.",
+ "C02": dict(level="exploration", technique="runtime monitoring: differential oracle (same recipe computed unoptimised vs under each optimiser setting; integers exact, floats within 16 ulp) + read-back of requested arrays from storage",
+   text="Each generated DAG is executed by the real code unoptimised and under default/multiple-input/legacy/fuse-all/fuse-only optimisers with random always/never-fuse subsets; requested arrays must be identical (floats within 16 ulp: NumPy's SIMD functions are not bit-reproducible across layouts) and present in storage. A third of the recipes also save a requested array with a lazy store/to_zarr into a path or an existing array of equal/finer/coarser/unrelated chunking and request a consumer of the stored array; the target is read back with plain zarr. Held = no difference on the (recipe, optimiser) pairs listed.",
    note="Reference is cubed's own unoptimised run (a common-mode error in both is C01's business). Memory refusals under fusion-forcing optimisers are allowed by the property and not judged.", ref="3/C02"),
  "C03": dict(level="exploration", technique="runtime monitoring of allocations: tracemalloc around every task (one at a time under the harness executor, second run of each plan, excess re-measured up to 5 times), phase-resolved by wrapping zarr.Array.__getitem__/__setitem__, judged against the finalized plan's projected_mem",
    text="A table of 46 programs covering every operation family at data-dominated chunk sizes, five geometries, three dtypes, fused/unfused, compressor None/default: every task's traced peak must stay within its operation's projected memory. Three open, mechanism-keyed findings (compressed storage buffers; previous block alive in multi-block reads; undeclared function temporaries) are matched by configuration + producing function + segment kind + ratio ceiling; two thirds of the budget run without a compressor where only the two narrower findings can match.",
